@@ -327,6 +327,20 @@ def gen_schema(seed, size=None, adversarial_text=True):
     # object values in defaults are generated with their keys in definition order, which is also sorted order: turn them
     # round in a third of the schemas (the order of the keys of a literal is part of what is printed and introspected)
     if seed % 3 == 2:
+        # ... and make sure there is such a value: an argument of the first field of the query type whose default names
+        # two or more scalar fields of an input object type
+        simple = {"Int": {"t": "i", "v": 1}, "Boolean": {"t": "b", "v": True}, "String": {"t": "s", "v": [115]}, "ID": {"t": "s", "v": [105, 100]}}
+        q = next((t for t in S["types"] if t["name"] == S["query"] and t["fields"]), None)
+        for t in S["types"]:
+            if q is None or t["kind"] != "INPUT_OBJECT" or t["oneOf"]:
+                continue
+            usable = [f for f in t["inputFields"] if f["type"][0] == "N" and f["type"][1] in simple]
+            required = [f for f in t["inputFields"] if f["type"][0] == "NN" and not f["hasDefault"]]
+            if len(usable) >= 2 and not required and not any(a["name"] == "zd" for a in q["fields"][0]["args"]):
+                q["fields"][0]["args"].append({"name": "zd", "type": ["N", t["name"]], "description": None, "deprecation": None, "hasDefault": True,
+                                               "default": {"t": "o", "kv": [[f["name"], dict(simple[f["type"][1]])] for f in usable]}})
+                break
+
         def rev(v):
             if v["t"] == "o":
                 v["kv"] = [[k, rev(x)] for k, x in reversed(v["kv"])]
